@@ -105,7 +105,10 @@ fn combos() -> Vec<(u8, u8)> {
     let mut v: Vec<(u8, u8)> = (0..ENTRIES.len() as u8).map(|e| (e, 0)).collect();
     for o in 1..OPTION_VECTORS.len() as u8 {
         v.push((0, o));
-        v.push((6, o));
+        // the robotics vector through the iterator as well only in the thorough tier (quick stays under a minute)
+        if o != 8 || std::env::args().any(|a| a == "thorough") {
+            v.push((6, o));
+        }
     }
     v
 }
@@ -505,7 +508,7 @@ pub fn run(ctx: &Ctx) -> i32 {
     let _ = raw::raw_doc_count("");
     let meta = Meta {
         level: "model_checking",
-        rule: "every token string up to the length bound over a 36-token alphabet (indicators, anchors, tags, block scalar headers, document markers, multi-byte characters, BOM and invalid UTF-8 bytes) x 15 targets x 23 (entry point, option vector) combinations, executed in a child process (abort / stack overflow / hang bisected to a single input), every returned error rendered in 6 ways; plus 11 deep / wide families on a grid of sizes, each grid point in its own child on an 8 MiB stack; non-trivial = non-empty input".into(),
+        rule: "every token string up to the length bound over a 36-token alphabet (indicators, anchors, tags, block scalar headers, document markers, multi-byte characters, BOM and invalid UTF-8 bytes) x 15 targets x 24 (thorough 25) (entry point, option vector) combinations, executed in a child process (abort / stack overflow / hang bisected to a single input), every returned error rendered in 6 ways; plus 11 deep / wide families on a grid of sizes, each grid point in its own child on an 8 MiB stack; non-trivial = non-empty input".into(),
         exhaustive: true,
         bounds: json!({"max_tokens": ctx.tier.pick(3, 4), "tokens": TOKENS.len(), "targets": TARGETS, "entry_points": ENTRIES, "option_vectors": OPTION_VECTORS, "combinations_per_input_and_target": combos().len()}),
         assumptions: vec!["release build with overflow-checks and debug-assertions enabled for serde-saphyr only".into(), "stack figures are those of this build on this machine".into()],
